@@ -1,11 +1,80 @@
-(* Props/C13.v — property C13: statements only.  Each theorem is closed by `exact`. *)
+(* Props/C13.v — property C13: statements only.  Each theorem is closed by `exact`.
+   All theorems quantify over EVERY type of the universe `ty` (hence over every descriptor of
+   Gen/StreamTypes.v, translated from the Rust source on each run), every value / byte string, both
+   decoding modes `tr` (true = from_bytes_unchecked, false = from_bytes), and an arbitrary oracle O for
+   blst / clvmr / chia-pos2 subject to the hypotheses written out in each statement:
+     prog_len_stable_hyp  the CLVM length function only depends on the bytes it counts
+     prog_len_pos_hyp     a CLVM serialization has at least one byte
+     prog_len_trust_hyp   what the validating length function accepts, the trusting one measures alike *)
 From Coq Require Import String.
 From ChiaV.Base Require Import Bytes.
 From ChiaV.Stream Require Import Universe Versioned Codec CodecProofs.
 From ChiaV.Gen Require Import StreamTypes.
 Open Scope N_scope.
 
+(* canonicity: whatever decodes is well formed and is exactly its own encoding followed by the rest *)
+Theorem C13_decode_canonical : forall O, prog_len_stable_hyp O -> forall tr t bs v r,
+  decode O tr t bs = Some (v, r) ->
+  wf O tr t v = true /\ exists e, encode t v = Some e /\ bs = e ++ r.
+Proof. exact decode_sound. Qed.
+
+(* round trip: every well-formed value encodes, and decoding the encoding (followed by anything) returns it *)
+Theorem C13_encode_decode_roundtrip : forall O, prog_len_stable_hyp O -> prog_len_pos_hyp O -> forall tr t v,
+  wf O tr t v = true ->
+  exists e, encode t v = Some e /\ forall r, decode O tr t (e ++ r) = Some (v, r).
+Proof. exact encode_decode. Qed.
+
+(* from_bytes level: re-encoding an accepted input reproduces exactly those bytes *)
+Theorem C13_from_bytes_reencodes : forall O, prog_len_stable_hyp O -> forall tr t bs v,
+  from_bytes_gen O tr t bs = Some v -> wf O tr t v = true /\ encode t v = Some bs.
+Proof. exact from_bytes_canonical. Qed.
+
+(* each value has one encoding (across both decoding modes) *)
+Theorem C13_one_encoding_per_value : forall O, prog_len_stable_hyp O -> forall tr tr' t bs bs' v,
+  from_bytes_gen O tr t bs = Some v -> from_bytes_gen O tr' t bs' = Some v -> bs = bs'.
+Proof. exact one_encoding_per_value. Qed.
+
+Theorem C13_to_bytes_from_bytes : forall O, prog_len_stable_hyp O -> prog_len_pos_hyp O -> forall tr t v,
+  wf O tr t v = true -> exists e, encode t v = Some e /\ from_bytes_gen O tr t e = Some v.
+Proof. exact to_bytes_from_bytes. Qed.
+
+(* the streaming hash is H of the encoding (H arbitrary: holds for the real SHA-256) for every value that holds
+   no v2 proof of space ... *)
+Theorem C13_hash_is_H_of_encoding : forall O tr (H : bytes -> bytes) t v e,
+  wf O tr t v = true -> has_v2_pos t v = false -> encode t v = Some e -> hash_of H O t v = Some (H e).
+Proof. exact hash_is_hash_of_encoding. Qed.
+
+(* ... and for a v2 proof of space the digest input is the encoding with the (length-prefixed) proof replaced by
+   its quality-string commitment; without a quality string update_digest panics (this is finding F-C14-1) *)
+Theorem C13_pos_v2_hash_commits_to_quality : forall O tr v,
+  wf_pos O tr v = true -> pos_is_v2 v = true ->
+  exists head pf, enc_pos v = Some (head ++ n2be 4 (nlen pf) ++ pf) /\
+    dig_pos O v = match quality O (head ++ n2be 4 (nlen pf) ++ pf) with
+                  | Some q => DOk (head ++ q)
+                  | None => DPanic
+                  end.
+Proof. exact dig_pos_v2. Qed.
+
+(* trusted decoding accepts everything untrusted decoding accepts, with the same value and rest *)
+Theorem C13_untrusted_implies_trusted : forall O, prog_len_trust_hyp O -> forall t bs v r,
+  decode O false t bs = Some (v, r) -> decode O true t bs = Some (v, r).
+Proof. exact untrusted_trusted. Qed.
+Theorem C13_from_bytes_unchecked_superset : forall O, prog_len_trust_hyp O -> forall t bs v,
+  from_bytes O t bs = Some v -> from_bytes_unchecked O t bs = Some v.
+Proof. exact from_bytes_unchecked_superset. Qed.
+
+(* lengths of 2^32 or more do not encode *)
+Theorem C13_vec_too_long_fails : forall a l, 2 ^ 32 <= N.of_nat (length l) -> encode (Vec a) (VList l) = None.
+Proof. exact encode_vec_too_long. Qed.
+Theorem C13_bytes_too_long_fails : forall b, 2 ^ 32 <= nlen b -> encode Bytes (VBytes b) = None.
+Proof. exact encode_bytes_too_long. Qed.
+
 (* from_bytes / from_bytes_unchecked accept only when the parser consumed the whole input *)
 Theorem C13_from_bytes_consumes_all : forall O tr t bs v,
   from_bytes_gen O tr t bs = Some v -> decode O tr t bs = Some (v, []).
 Proof. exact from_bytes_gen_decode. Qed.
+
+(* the oracle hypotheses are satisfiable *)
+Theorem C13_hypotheses_satisfiable :
+  prog_len_stable_hyp toy_oracles /\ prog_len_pos_hyp toy_oracles /\ prog_len_trust_hyp toy_oracles.
+Proof. exact toy_oracles_ok. Qed.
